@@ -288,6 +288,32 @@ def run_mask_helpers(ctx):
                           case=cj, found_input=oracle_bad, unit=u.name, expected=model.astype(int).tolist(),
                           observed=impl.astype(int).tolist(), broken="correspondence mask-helpers / C09_block_*_closed_form, C09_rank_mask_spec",
                           reproducer="cd /verif && ./check C09 --replay <this file>")
+    # rank arrays of every integer dtype, with values up to the ends of the dtype's range (a sentinel such as INT_MIN for "always
+    # visible" inputs, unsigned ranks): the documented pattern is the comparison of the ranks AS INTEGERS (seeded change C09e compared
+    # through a difference, which wraps).  Reference: python integers.
+    for dt in ("int8", "uint8", "int16", "int32", "uint32", "int64"):
+        info = np.iinfo(dt)
+        for rep in range(2 if ctx.quick else 12):
+            pool = [info.min, info.min + 1, info.max, info.max - 1, 0, 1, 2, 3] + ([-1] if info.min < 0 else [])
+            a = [int(pool[int(r.integers(len(pool)))]) for _ in range(int(r.integers(1, 6)))]
+            b = [int(pool[int(r.integers(len(pool)))]) for _ in range(int(r.integers(1, 6)))]
+            for eq in (True, False):
+                for lib in ("jax", "numpy"):
+                    mk = (lambda v: jnp.asarray(np.asarray(v, dtype=dt))) if lib == "jax" else (lambda v: np.asarray(v, dtype=dt))
+                    try:
+                        impl = np.asarray(fm.rank_based_mask(mk(a), mk(b), eq=eq))
+                    except Exception as e:  # noqa: BLE001
+                        impl = None
+                        err = f"{type(e).__name__}: {str(e)[:80]}"
+                    ref = np.array([[(bo >= ai) if eq else (bo > ai) for ai in a] for bo in b], dtype=bool)
+                    cj = dict(fn="rank_based_mask", in_ranks=a, out_ranks=b, eq=eq, dtype=dt, array=lib)
+                    u.count(cj, nontrivial=bool(ref.any() and not ref.all()), tag=f"rank:{dt}")
+                    if impl is None or not same_shape_eq(impl, ref):
+                        ctx.violation(sig="masks.rank_based_mask:pattern-dtype",
+                                      what=f"rank_based_mask(in_ranks={a}, out_ranks={b}, eq={eq}) on {lib} {dt} arrays returns {err if impl is None else impl.astype(int).tolist()}; "
+                                           f"the ranks compared as integers give {ref.astype(int).tolist()}",
+                                      case=cj, found_input=True, unit=u.name, expected=ref.astype(int).tolist(), observed=None if impl is None else impl.astype(int).tolist(),
+                                      broken="mask-helpers (oracle): rank comparison for every integer dtype / C09_rank_mask_spec")
     ctx.sample(dict(unit="mask-helpers", case=dict(fn="block_tril_mask", block_shape=[2, 1], n_blocks=2, k=0),
                     value=np.asarray(fm.block_tril_mask((2, 1), 2)).astype(int).tolist()))
 
